@@ -185,10 +185,18 @@ def run_faces(ctx, desc):
     ctx.note("topologies_run", (Kx, Ky, per, tuple(desc["orients"])))
     comp = {"X": u, "Y": v}
     oth = "Y" if a == "X" else "X"
+    use_2d = desc["dseed"] % 4 == 0
     try:
-        r_ = getattr(g, op)({a: comp[a]}, a, other_component={oth: comp[oth]}, to="center")
+        if use_2d:
+            # the two-component wrappers: both components in one dictionary (listed in either order), a dictionary back
+            vec = {a: comp[a], oth: comp[oth]} if desc["dseed"] % 8 == 0 else {oth: comp[oth], a: comp[a]}
+            both = getattr(g, op + "_2d_vector")(vec, to="center")
+            r_ = both[a]
+            ctx.count("calls_through_2d_vector_wrappers")
+        else:
+            r_ = getattr(g, op)({a: comp[a]}, a, other_component={oth: comp[oth]}, to="center")
     except Exception as e:
-        ctx.violation("well-posed-call-returns", f"{op}({{{a}: comp}}, other_component) raised {type(e).__name__}: {str(e)[:250]}")
+        ctx.violation("well-posed-call-returns", f"{op}{'_2d_vector' if use_2d else ''}({{{a}: comp}}, other_component) raised {type(e).__name__}: {str(e)[:250]}")
         return
     if ctx.evaluations % 40 == 1:
         ctx.sample({"case": desc, "swapped_links": swapped})
@@ -203,6 +211,15 @@ def run_faces(ctx, desc):
             ctx.violation("vector-across-links", f"{op} of component {a} ({stag}) on {Kx}x{Ky} faces N={N} periodic={per} orientations {desc['orients']}: "
                                                 f"face {w[0]} cell (j={w[1]}, i={w[2]}) = {R[k][w]}, true edge values give {exps[k][w]}")
             return
+    if use_2d:
+        exps_o = [expected(k, oth) for k in range(nlead)]
+        Ro = both[oth].transpose(*canon).values.reshape((-1, T.nf, N, N))
+        for k in range(nlead):
+            if not np.array_equal(Ro[k], exps_o[k]):
+                w = tuple(np.argwhere(Ro[k] != exps_o[k])[0])
+                ctx.violation("vector-across-links", f"{op}_2d_vector: component {oth} on {Kx}x{Ky} faces N={N} orientations {desc['orients']}: face {w[0]} cell "
+                                                    f"(j={w[1]}, i={w[2]}) = {Ro[k][w]}, true edge values give {exps_o[k][w]}")
+                return
     # discrete divergence == that of the undivided field (fully linked domains only)
     if op == "diff" and per:
         ctx.judged(("divergence",) + tuple(ckey[1:4]) + (stag, N), True)
